@@ -1865,7 +1865,8 @@ public:
     if (!expr.isSysCall()) {
       auto symbol = symbolTable.lookup(std::make_pair(getCurrentScope(), expr.getName()),
                                        expr.getLocation());
-      if (auto symbolExpr = dynamic_cast<const ValDecl*>(symbol->getNode())) {
+      auto symbolExpr = dynamic_cast<const ValDecl*>(symbol->getNode());
+      if (symbolExpr && symbolExpr->getExpr()->isConst()) {
         expr.setSysCallId(symbolExpr->getValue());
       } else {
         return;
@@ -1882,7 +1883,8 @@ public:
     // Propagate constant values to variable references.
     auto symbol = symbolTable.lookup(std::make_pair(getCurrentScope(), expr.getName()),
                                      expr.getLocation());
-    if (auto symbolExpr = dynamic_cast<const ValDecl*>(symbol->getNode())) {
+    auto symbolExpr = dynamic_cast<const ValDecl*>(symbol->getNode());
+    if (symbolExpr && symbolExpr->getExpr()->isConst()) {
       expr.setValue(symbolExpr->getValue());
     }
   }
